@@ -282,6 +282,26 @@ var foldBoundaries = []uint64{0, 1, 2, 0xfffe, 0xffff, 0x10000, 0x10001, 0x1fffe
 func gen(r *lib.Rand, tier string, emit func(string)) {
 	thorough := tier == "thorough"
 
+	// ---- GRE "no checksum" encodings: C clear with every combination of the other header bits, in particular
+	// R set / C clear (the checksum word is present but does not carry a checksum); payload = zero words so that a
+	// routing walk ends at once.  `verify` on hand-built headers, `emit` + flips of the R, K, S bits.
+	for hb := 0; hb < 16; hb++ { // C R K S in the top nibble of byte 0
+		for _, tail := range []string{"0000000000000000", "00000000000000000000000000000000", "1234000000000000000000000000"} {
+			emit("reset")
+			emit(fmt.Sprintf("cksum verify gre - - - %02x000800%s", hb<<4, tail))
+		}
+	}
+	for _, k := range []int{0, 1} {
+		for _, sq := range []int{0, 1} {
+			emit("reset")
+			emit(fmt.Sprintf("cksum emit gre - - - 0 %d %d 0 0 0 0 2048 0 7 9 0 0000000000000000", k, sq))
+			emit("cksum vlast")
+			emit("cksum flip 1") // R bit
+			emit("cksum flip 2")
+			emit("cksum flip 3")
+		}
+	}
+
 	// ---- fold: boundary accumulators, random, and the Go-side exhaustive sweep against the closed form
 	emit("reset")
 	for _, c := range foldBoundaries {
